@@ -568,6 +568,17 @@ TRUSTED_BASE = [
 SKIP = object()   # returned by a projection of the MODEL result: scenario not comparable (e.g. simultaneous events)
 
 
+def safe_monitor(monitor, sc, ir, strict):
+    """a monitor that raises is a defect of the check, not of the code: while shrinking / searching the candidate is skipped;
+    in the main pass it is reported (visibly) instead of crashing the run"""
+    try:
+        return list(monitor(sc, ir))
+    except Exception as e:  # noqa: BLE001
+        if strict:
+            return [("internal error in the monitor: %r" % (e,), "internal-error")]
+        return []
+
+
 class Suite:
     """One scenario family as used by one property.
     generate(rng, tier) -> [Scenario]; project(sc, ints) -> comparable; monitor(sc, ImplResult) -> [(what, key)]"""
@@ -635,7 +646,7 @@ def run_suite(pid, suite, scenarios, binaries):
         if ir.verdict == "not-run":     # the run was cut short after several hangs, each already recorded
             continue
         if suite.monitor is not None:
-            for what, k in suite.monitor(sc, ir):
+            for what, k in safe_monitor(suite.monitor, sc, ir, True):
                 failures.append(Failure("monitor", sc, what, ir, mr, key=k))
                 monitor_fail += 1
         if suite.model and suite.project is not None:
@@ -744,7 +755,7 @@ def run_property(pid, suites, tier, seed, assumptions, extra_obligation_check=No
                 res = run_impl(binaries[(su.version, su.race)], [c.enc for c in cands], batch_timeout=su.batch_timeout, tag=pid + "shrink")
                 budget -= len(cands)
                 for c, ir in zip(cands, res):
-                    fs = su.monitor(c, ir)
+                    fs = safe_monitor(su.monitor, c, ir, False)
                     if fs:
                         nf = Failure("monitor", c, fs[0][0], ir, None, key=fs[0][1])
                         nf.suite = su.name
@@ -782,7 +793,7 @@ def run_property(pid, suites, tier, seed, assumptions, extra_obligation_check=No
                     impl2 = run_impl(binaries[key], [sc.enc for sc in extra_sc], batch_timeout=su.batch_timeout, tag=pid + su.name + "s")
                     searched += len(extra_sc)
                     for sc, ir in zip(extra_sc, impl2):
-                        for what_, k in su.monitor(sc, ir):
+                        for what_, k in safe_monitor(su.monitor, sc, ir, False):
                             f = Failure("monitor", sc, what_, ir, None, key=k)
                             f.suite = su.name
                             if match_known(pid, f, known) is None:
